@@ -109,6 +109,7 @@ CHECKS["C14"] = {
     "assumptions": ["network delivers each record exactly once"],
     "jobs": [
         {"pkg": MUX, "run": "^TestVerif_C14_Datagrams$", "checks": {"quick": 2000, "thorough": 300000}, "shards": {"thorough": 16}, "timeout": {"quick": 300}},
+        {"pkg": SERVER, "run": "^TestVerif_C14_UDPRig$", "checks": {"quick": 6, "thorough": 400}, "shards": {"thorough": 4}, "timeout": {"quick": 300}},
     ],
 }
 
